@@ -43,6 +43,8 @@ def number_blocks(blocks, start=1):
                 n[0] += 1
             elif t in ("a", "ins", "del", "isdt"):
                 out.append([t, inl(i[1])])
+            elif t == "itbx":
+                out.append([t, blk(i[1])])
             else:
                 out.append(list(i))
         return out
